@@ -753,6 +753,12 @@ func main() {
 		discoverCase(w, d[0], d[1], d[2])
 	}
 
+	// ---- round 11: the document of an arbitrary op.Configuration (conf.go); drawn last so that the earlier cases keep their seeds
+	assertNilEndpointsRefused()
+	for i := 0; i < cfg.Count(400, 8000); i++ {
+		confCase(w, r)
+	}
+
 	err := w.Close(emit.Meta{Property: "C19", Tier: cfg.Tier, Seed: cfg.Seed, Exhaustive: !cfg.Quick && cfg.N == 0,
 		Rule: "grid = 2^5 flags x 2^3 capabilities x {default, custom paths} x {static, host, forwarded} (thorough: all 1536 points, quick: seeded sample), " +
 			"each on both routers with a random request (Host, Forwarded) and issuer variant; for the host / forwarded strategies a sequence of 6 requests (same Host + other Forwarded, other Host + same Forwarded, the first again, no Forwarded, the first again) goes to the one provider instance, one doc case per request; mixed = random per-endpoint default/custom/URL/nil; " +
@@ -761,6 +767,7 @@ func main() {
 			"token flows (kind=tokens): per (configuration, router) one client kind (basic / post / private_key_jwt / public, round-robin; credentials sent as registered; every code flow bound to an S256 challenge) runs code, refresh, client_credentials, jwt-bearer, token exchange (access / refresh / ID token requested; subject token = access, ID or refresh token of a code flow), device_code and implicit (id_token, id_token token) in a random order under the request of the doc case - all ten at the first position of a request sequence, a random five at positions 1-3 - with JWT access tokens in two thirds of the cases (client AccessTokenType and JWTProfileTokenType); the iss of every ID token and JWT access token is read; the two routers are visited in a random order; " +
 			"12 + 5 grant strings: the known names, wrong case, white space (blank, tab, CR, LF), Unicode case folding (U+017F, U+212A), trailing slash, short names and keyword-like values (null, undefined, true, 0, [], {}); PKCE method names s256 / 'S256 ' / ' S256' / PLAIN / null besides S256 and plain; " +
 			"issuer strings = scheme x authority x path x query marker x fragment marker product + specials (http / https in upper and mixed case, keyword-like values, white space plain and encoded, markers behind 1 KiB / 4 KiB of path); every scheme spelling (https, http, HTTPS, HTTP, Http, hTTp, HttpS, ftp, FTP, none) x every authority (incl. upper-case host, default ports :80 / :443, trailing dot) without markers, with and without the opt-in; Discover = asked x served variants (white space, %20, +, long s, Kelvin sign, host / path case, keywords, issuers beyond 4 KiB differing in the last byte). " +
+			"kind=conf (400 in quick, 8000 in thorough): op.CreateDiscoveryConfig (V1) / LegacyServer.Discovery -> createDiscoveryConfigV2 (V2, own op.Endpoints, the Configuration's endpoint answers are decoys) and AuthCallbackURL for a hand-written op.Configuration whose every answer is drawn independently: 13 flags (the introspection / revocation private_key_jwt flags tied to the token endpoint's in half of the cases, free otherwise), 9 endpoints each nil (2/10) / path in odd shapes (5/10) / absolute URL (2/10) / empty URL (1/10), four algorithm lists and the storage's (or its error, 1 in 8), UI locales, context issuer from 12 spellings incl. none; the document is read back from the JSON op.Discover writes; " +
 			"Non-trivial = model path class != 0 (everything but the empty-issuer reject and token cases in which no flow is available); distinct = distinct (input, path class).",
 		Extra: map[string]any{"grid_points": len(grid), "grid_total": 256 * 2 * 3},
 	})
